@@ -242,7 +242,7 @@ class Unit:
                 if canary and info['kind'] == 'fn' and lift.spec and not lift.no_canary:
                     # a copy of the function, renamed, with `ensures false`: it must fail to verify
                     cfirst = len(self.gen_lines) + 1
-                    fname = lift.path.split(' :: ')[-1].split(' ', 1)[1]
+                    fname = lift.path.split(' :: ')[-1].split(' @ ')[0].strip().split(' ', 1)[1]
                     renamed = False
                     clines = []
                     for text, oline in _add_canary(lines, lift):
